@@ -52,6 +52,9 @@ Gen/ObjPin.vos Gen/ObjPin.vok Gen/ObjPin.required_vos: Gen/ObjPin.v
 Gen/Testing.vo Gen/Testing.glob Gen/Testing.v.beautified Gen/Testing.required_vo: Gen/Testing.v Core/Base.vo Core/Prog.vo Py/Sig.vo Sem/Interp.vo Sem/Model.vo Gen/Validators.vo
 Gen/Testing.vio: Gen/Testing.v Core/Base.vio Core/Prog.vio Py/Sig.vio Sem/Interp.vio Sem/Model.vio Gen/Validators.vio
 Gen/Testing.vos Gen/Testing.vok Gen/Testing.required_vos: Gen/Testing.v Core/Base.vos Core/Prog.vos Py/Sig.vos Sem/Interp.vos Sem/Model.vos Gen/Validators.vos
+Gen/Transformer.vo Gen/Transformer.glob Gen/Transformer.v.beautified Gen/Transformer.required_vo: Gen/Transformer.v 
+Gen/Transformer.vio: Gen/Transformer.v 
+Gen/Transformer.vos Gen/Transformer.vok Gen/Transformer.required_vos: Gen/Transformer.v 
 Sem/Scenario.vo Sem/Scenario.glob Sem/Scenario.v.beautified Sem/Scenario.required_vo: Sem/Scenario.v Core/Base.vo Core/Prog.vo Py/Sig.vo Sem/Interp.vo Sem/InterpFacts.vo Sem/Model.vo Sem/Show.vo Gen/State.vo Sem/ScnSwitch.vo Gen/Validators.vo Gen/HasPatcher.vo Gen/Contracts.vo Gen/Dispatch.vo
 Sem/Scenario.vio: Sem/Scenario.v Core/Base.vio Core/Prog.vio Py/Sig.vio Sem/Interp.vio Sem/InterpFacts.vio Sem/Model.vio Sem/Show.vio Gen/State.vio Sem/ScnSwitch.vio Gen/Validators.vio Gen/HasPatcher.vio Gen/Contracts.vio Gen/Dispatch.vio
 Sem/Scenario.vos Sem/Scenario.vok Sem/Scenario.required_vos: Sem/Scenario.v Core/Base.vos Core/Prog.vos Py/Sig.vos Sem/Interp.vos Sem/InterpFacts.vos Sem/Model.vos Sem/Show.vos Gen/State.vos Sem/ScnSwitch.vos Gen/Validators.vos Gen/HasPatcher.vos Gen/Contracts.vos Gen/Dispatch.vos
@@ -187,3 +190,9 @@ Thm/C15/Cases.vos Thm/C15/Cases.vok Thm/C15/Cases.required_vos: Thm/C15/Cases.v 
 Props/C15.vo Props/C15.glob Props/C15.v.beautified Props/C15.required_vo: Props/C15.v Core/Base.vo Core/Prog.vo Py/Sig.vo Sem/Interp.vo Sem/InterpFacts.vo Sem/Model.vo Gen/Validators.vo Thm/Common/Loops.vo Gen/Testing.vo Thm/C15/Cases.vo
 Props/C15.vio: Props/C15.v Core/Base.vio Core/Prog.vio Py/Sig.vio Sem/Interp.vio Sem/InterpFacts.vio Sem/Model.vio Gen/Validators.vio Thm/Common/Loops.vio Gen/Testing.vio Thm/C15/Cases.vio
 Props/C15.vos Props/C15.vok Props/C15.required_vos: Props/C15.v Core/Base.vos Core/Prog.vos Py/Sig.vos Sem/Interp.vos Sem/InterpFacts.vos Sem/Model.vos Gen/Validators.vos Thm/Common/Loops.vos Gen/Testing.vos Thm/C15/Cases.vos
+Thm/C19/Lines.vo Thm/C19/Lines.glob Thm/C19/Lines.v.beautified Thm/C19/Lines.required_vo: Thm/C19/Lines.v Gen/Transformer.vo
+Thm/C19/Lines.vio: Thm/C19/Lines.v Gen/Transformer.vio
+Thm/C19/Lines.vos Thm/C19/Lines.vok Thm/C19/Lines.required_vos: Thm/C19/Lines.v Gen/Transformer.vos
+Thm/C19/Render.vo Thm/C19/Render.glob Thm/C19/Render.v.beautified Thm/C19/Render.required_vo: Thm/C19/Render.v Gen/Transformer.vo Thm/C19/Lines.vo
+Thm/C19/Render.vio: Thm/C19/Render.v Gen/Transformer.vio Thm/C19/Lines.vio
+Thm/C19/Render.vos Thm/C19/Render.vok Thm/C19/Render.required_vos: Thm/C19/Render.v Gen/Transformer.vos Thm/C19/Lines.vos
